@@ -37,8 +37,9 @@ type wireCfg struct {
 }
 
 type wgroup struct {
-	data   map[int][]byte // position -> packet bytes from the FEC header's payload part (size + payload)
-	parity map[int][]byte
+	data    map[int][]byte // position -> packet bytes from the FEC header's payload part (size + payload)
+	parity  map[int][]byte
+	firstMs int64 // emission time (+1) of the first packet of the group seen
 }
 
 type wireFlow struct {
@@ -63,6 +64,11 @@ type wireFlow struct {
 	reported                                                          map[string]bool
 	lastSeq                                                           uint32
 	runLen, maxRun                                                    int
+	shrinkAtMs                                                        int64 // time of the last accepted MTU shrink (0: none)
+	lastWasMixedParity                                                bool
+	lastKind                                                          string
+	lastGroupFirstMs                                                  int64
+	oversizeLen, oversizeMtu                                          int
 }
 
 func newWireFlow(cfg wireCfg, viol func(key, detail string)) *wireFlow {
@@ -96,9 +102,25 @@ func (f *wireFlow) observe(data []byte, nowMs int64) {
 	if len(data) > f.maxLen {
 		f.maxLen = len(data)
 	}
+	oversize := false
 	if m := f.cfg.mtu(); len(data) > m || len(data) > 1500 {
-		f.bad("C10 datagram larger than the configured MTU", "datagram of %d bytes, MTU in force %d", len(data), m)
+		oversize = true
+		f.oversizeLen, f.oversizeMtu = len(data), m
 	}
+	defer func() {
+		if !oversize {
+			return
+		}
+		// classified after decoding: parity of a group that was begun before an
+		// accepted shrink of the MTU is a separate (known) class
+		if f.lastWasMixedParity {
+			f.bad("C10 parity of an FEC group begun before SetMtu shrank the MTU is longer than the new MTU", "parity datagram of %d bytes, MTU in force %d, group's first data packet sent at %d ms, MTU shrunk at %d ms", f.oversizeLen, f.oversizeMtu, f.lastGroupFirstMs, f.shrinkAtMs)
+		} else {
+			f.bad("C10 datagram larger than the configured MTU", "datagram of %d bytes, MTU in force %d (%s)", f.oversizeLen, f.oversizeMtu, f.lastKind)
+		}
+	}()
+	f.lastWasMixedParity = false
+	f.lastKind = "undecoded"
 	if len(data) == 0 {
 		f.bad("C10 empty datagram handed to the PacketConn", "")
 		return
@@ -195,7 +217,11 @@ func (f *wireFlow) observe(data []byte, nowMs int64) {
 				g = &wgroup{data: map[int][]byte{}, parity: map[int][]byte{}}
 				f.groups[base] = g
 			}
+			if g.firstMs == 0 {
+				g.firstMs = nowMs + 1
+			}
 			if typ == 0xf1 {
+				f.lastKind = fmt.Sprintf("FEC data seqid %d", seqid)
 				f.nData++
 				if size != len(rest)-6 {
 					f.bad("C09 FEC size field is not payload+2", "data packet seqid %d: size field %d, %d bytes follow the 6-byte header", seqid, size, len(rest)-6)
@@ -203,10 +229,16 @@ func (f *wireFlow) observe(data []byte, nowMs int64) {
 				g.data[pos] = append([]byte(nil), rest[6:]...)
 				f.kcpLayer(rest[8:])
 			} else {
+				f.lastKind = fmt.Sprintf("FEC parity seqid %d", seqid)
 				f.nParity++
 				g.parity[pos-f.cfg.d] = append([]byte(nil), rest[6:]...)
+				f.lastGroupFirstMs = g.firstMs - 1
+				if f.shrinkAtMs > 0 && g.firstMs-1 <= f.shrinkAtMs {
+					f.lastWasMixedParity = true
+				}
 			}
 		case 0xf3:
+			f.lastKind = "out-of-band"
 			f.nOOB++
 			if seqid != 0xffffffff {
 				f.bad("C09 out-of-band packet does not use the reserved sequence id", "seqid %d", seqid)
@@ -227,6 +259,7 @@ func (f *wireFlow) observe(data []byte, nowMs int64) {
 		}
 		return
 	}
+	f.lastKind = "KCP without FEC"
 	f.kcpLayer(rest)
 }
 
@@ -374,4 +407,11 @@ func (f *wireFlow) longestRun() int {
 	f.mu.Lock()
 	defer f.mu.Unlock()
 	return f.maxRun
+}
+
+// noteShrink tells the flow that the sender's MTU was just reduced.
+func (f *wireFlow) noteShrink(nowMs int64) {
+	f.mu.Lock()
+	f.shrinkAtMs = nowMs + 1
+	f.mu.Unlock()
 }
